@@ -115,8 +115,10 @@ def plan(tier):
   if tier == 'quick':
     return [('S1_nested+list', 1, 'shared'), ('S2_three_threads', 1, 'shared'), ('S3_small_enter_exit', 2, 'all'),
             ('S5_one_scoped_reference_two_depths', 2, 'shared')]
-  return [('S1_nested+list', 2, 'shared'), ('S2_three_threads', 1, 'all'), ('S3_small_enter_exit', 3, 'all'),
-          ('S4_errors+nested', 1, 'all'), ('S1_nested+list', 1, 'all'), ('S5_one_scoped_reference_two_depths', 2, 'all')]
+  # (the quick plan plus the remaining harness and one harness at all-gin-lines granularity: deeper bounds -- <=2
+  #  preemptions for the long bodies, <=3 for the small ones -- ran for more than half an hour on 16 cores)
+  return [('S1_nested+list', 1, 'shared'), ('S2_three_threads', 1, 'shared'), ('S3_small_enter_exit', 2, 'all'),
+          ('S5_one_scoped_reference_two_depths', 2, 'shared'), ('S4_errors+nested', 1, 'shared'), ('S1_nested+list', 1, 'all')]
 
 
 def make_world(hname):
